@@ -454,6 +454,37 @@ def pickle_child_case(case):
     return len(got)
 
 
+def two_threads_case(case):
+    """Two independent models, each stepped by its own thread; the second thread cuts into the first at every line of
+    library code it executes (E5).  Each model runs ITS systems in its own (descending priority, registration) order."""
+    from mc.engine import preempt
+    logs = {}
+
+    def make():
+        reset_library()
+        out = []
+        for name, prios in (('m1', case['p1']), ('m2', case['p2'])):
+            m = Core.Model(seed=1)
+            log = logs[name] = []
+            Rec, _, _ = make_recorder(log)
+            for i, p in enumerate(prios):
+                m.systems.add_system(Rec(f'{name}.s{i}', f's{i}', m, p))
+            out.append(m)
+        return (lambda: out[0].execute(case.get('n', 1))), (lambda: out[1].execute())
+
+    def want(name, prios, times):
+        order = [f'{name}.s{i}' for _, i in sorted(((-p, i) for i, p in enumerate(prios)))]
+        return order * times
+
+    def judge(k, box_a, box_b):
+        for name, prios, box, times in (('m1', case['p1'], box_a, case.get('n', 1)), ('m2', case['p2'], box_b, 1)):
+            if box.error is not None or logs[name] != want(name, prios, times):
+                raise Violation(f'two models stepped by two threads: model {name} (priorities {prios}) ran its systems in the '
+                                f'wrong order / not exactly once when the other thread cut in at line event {k}',
+                                expected=want(name, prios, times), observed=repr(box.error) if box.error else list(logs[name]))
+    return preempt.check_pair(make, judge, case.get('k'))
+
+
 def long_history(case):
     """One deep history: a transient system is registered and removed n times, then the order of a small set is judged.
     (Exhaustive exploration cannot reach counters that need a million registrations; this single path does.)"""
@@ -521,6 +552,15 @@ def run(ctx):
                 ctx.report(case, v)
                 return
         ctx.leg('pickle_child', cases=3, note='model pickled, loaded in a fresh interpreter, more systems registered there')
+    if not ctx.small:
+        for case in ({'leg': 'two_threads', 'p1': [0, 1, 0, -1], 'p2': [2, 2, 0]}, {'leg': 'two_threads', 'p1': [1, 1], 'p2': [0, 3, 0, 3], 'n': 2}):
+            ctx.traces += 1
+            try:
+                ctx.transitions += hbfs._guard(two_threads_case, case)
+            except Violation as v:
+                ctx.report(dict(case, k=getattr(v, 'case_k', 0)), v)
+                return
+        ctx.leg('two_threads', note='E5: two models stepped by two threads, one preemption at every library line')
     nc = 0
     for case in clone_cases():
         ctx.traces += 1
@@ -593,6 +633,9 @@ def replay(case):
         return
     if case['leg'] == 'clone':
         hbfs._guard(clone_case, case)
+        return
+    if case['leg'] == 'two_threads':
+        hbfs._guard(two_threads_case, case)
         return
     if case['leg'] == 'pickle_child':
         hbfs._guard(pickle_child_case, case)
